@@ -363,3 +363,103 @@ def gen_wild_fileset(rng):
     ctx.ifaces[name] = {"base": None, "file": 0}
     decls.append(("iface", name, None, members))
     return {"files": [{"path": "main.idl", "includes": [], "decls": decls}], "main": "main.idl", "idirs": []}
+
+
+# ------------------------------------------------------------------ trivia-aware rendering (G5)
+# A file is rendered as a token list with gaps.  Gap kinds:
+#   "sep"   the grammar skips trivia here and the neighbours need a separator (two words)
+#   "opt"   the grammar skips trivia here, nothing is required
+#   "kw"    after an atomic keyword rule: exactly one whitespace first, then trivia is skipped
+#   "level" like "opt"/"sep" but between whole declarations / fields / members (pst.rs filters
+#           COMMENT pairs here)
+#   "none"  no trivia allowed
+
+def _decl_tokens(d, out):
+    """appends (token, gap_after) pairs"""
+    if d[0] == "const":
+        out += [("const", "kw"), (d[1], "sep"), (d[2], "opt"), ("=", "opt"), (d[3], "opt"), (";", "level")]
+    elif d[0] == "struct":
+        out += [("struct", "kw"), (d[1], "opt"), ("{", "level")]
+        for t, c, n in d[2]:
+            out.append((t, "opt" if c != 1 else "sep"))
+            if c != 1:
+                out += [("[", "opt"), (str(c), "opt"), ("]", "opt")]
+            out += [(n, "opt"), (";", "level")]
+        out.append(("};", "level"))
+    else:
+        _, name, base, members = d
+        out += [("interface", "kw"), (name, "opt")]
+        if base:
+            out += [(":", "opt"), (base, "opt")]
+        out.append(("{", "level"))
+        for m in members:
+            if m[0] == "const":
+                out += [("const", "kw"), (m[1], "sep"), (m[2], "opt"), ("=", "opt"), (m[3], "opt"), (";", "level")]
+            elif m[0] == "error":
+                out += [("error", "kw"), (m[1], "opt"), (";", "level")]
+            else:
+                _, mname, params, optional, doc = m
+                if doc:
+                    out.append((doc, "doc"))
+                if optional:
+                    out += [("#[optional]", "attr")]
+                out += [("method", "kw"), (mname, "opt"), ("(", "opt")]
+                for k, (dr, t, sh, pn) in enumerate(params):
+                    out.append((dr, "sep"))
+                    if sh is None:
+                        out.append((t, "sep"))
+                    elif sh == "[]":
+                        out += [(t, "opt"), ("[", "opt"), ("]", "opt")]
+                    else:
+                        out += [(t, "opt"), ("[", "opt"), (sh[1:-1], "opt"), ("]", "opt")]
+                    out.append((pn, "opt"))
+                    if k != len(params) - 1:
+                        out.append((",", "opt"))
+                out.append((");", "level"))
+        out.append(("};", "level"))
+
+
+def render_trivia(f, rng, mode):
+    """mode: 'plain' | 'ws' | 'level_comments' | 'inner_comments'"""
+    toks = []
+    for i in f["includes"]:
+        toks.append(('include "%s"' % i, "level"))
+    for d in f["decls"]:
+        _decl_tokens(d, toks)
+
+    def ws():
+        return "".join(rng.choice([" ", "  ", "\t", "\n", "\n\n", "\r\n"]) for _ in range(rng.randint(1, 3)))
+
+    def comment():
+        return rng.choice(["/* c */", "/*c*/", "// c\n", "/* multi\n line */", "//\n", "/* // */", "/* method f(); */"])
+
+    out = [rng.choice(["", " ", "\n", "// head\n", "/* head */\n"]) if mode != "plain" else ""]
+    for k, (tok, gap) in enumerate(toks):
+        out.append(tok)
+        last = k == len(toks) - 1
+        if mode == "plain":
+            out.append({"sep": " ", "opt": " " if tok in ("=", ",", ":") or gap == "opt" and False else "", "kw": " ",
+                        "level": "\n", "doc": "\n", "attr": "\n", "none": ""}[gap])
+            continue
+        if gap == "kw":
+            s = rng.choice([" ", "\t", "\n"]) + (ws() if rng.random() < 0.3 else "")
+            if mode == "inner_comments" and rng.random() < 0.3:
+                s += comment() + ws()
+        elif gap in ("doc", "attr"):
+            s = rng.choice(["\n", " ", "\n  "])
+        elif gap == "level":
+            s = ws() if rng.random() < 0.8 or last else ""
+            if mode in ("level_comments", "inner_comments") and rng.random() < 0.4:
+                nxt = toks[k + 1][1] if not last else None
+                # not directly before a documentation block's method: the doc token comes next only
+                s += comment() + ws()
+        elif gap == "sep":
+            s = ws()
+            if mode == "inner_comments" and rng.random() < 0.25:
+                s = rng.choice(["", ws()]) + comment() + rng.choice(["", ws()])
+        else:  # opt
+            s = ws() if rng.random() < 0.4 else ""
+            if mode == "inner_comments" and rng.random() < 0.15:
+                s += comment() + (ws() if rng.random() < 0.5 else "")
+        out.append(s)
+    return "".join(out)
